@@ -1829,6 +1829,20 @@ fn exec_hl(sv: &mut Servers, out: &mut Out, idx: &str, p: &Params, client: &str,
                 reader.read_to_end(&mut got)?;
                 Err(repe::RepeError::Io(io::Error::other("consumer rejects")))
             }
+            "c1" => {
+                // 64 one-byte reads, then reads of 2..7 bytes up to 256, then the rest at once
+                let mut one = [0u8; 7];
+                loop {
+                    let want = if got.len() < 64 { 1 } else if got.len() < 256 { 2 + (got.len() + salt) % 6 } else { break };
+                    let k = reader.read(&mut one[..want])?;
+                    if k == 0 {
+                        return Ok(got);
+                    }
+                    got.extend_from_slice(&one[..k]);
+                }
+                reader.read_to_end(&mut got)?;
+                Ok(got)
+            }
             "cpart" | "cpanic" => {
                 let mut small = [0u8; 16];
                 let mut n = 0;
@@ -1876,7 +1890,7 @@ fn exec_hl(sv: &mut Servers, out: &mut Out, idx: &str, p: &Params, client: &str,
                                 repe::pull_to_file(c, &res, &fpath)?;
                                 HlOut::Bytes(std::fs::read(&fpath)?)
                             }
-                            "cerr" | "cpart" | "cpanic" | "call" => {
+                            "cerr" | "cpart" | "cpanic" | "call" | "c1" => {
                                 let k = pl.clone();
                                 HlOut::Bytes(repe::pull_consume(c, &res, move |r| consume(&k, r, salt))?)
                             }
@@ -1937,7 +1951,7 @@ fn exec_hl(sv: &mut Servers, out: &mut Out, idx: &str, p: &Params, client: &str,
                                     repe::pull_to_file_async(&c, &res, &fpath).await?;
                                     HlOut::Bytes(std::fs::read(&fpath)?)
                                 }
-                                "cerr" | "cpart" | "cpanic" | "call" => {
+                                "cerr" | "cpart" | "cpanic" | "call" | "c1" => {
                                     let k = pl.clone();
                                     HlOut::Bytes(repe::pull_consume_async(&c, &res, move |mut r| consume(&k, &mut r, salt)).await?)
                                 }
@@ -2712,7 +2726,7 @@ fn main() {
                     run.hl(&p, client, puller);
                 }
                 // the consumer-closure entry points and the file pullers
-                for (kind, puller) in [("reader", "call"), ("writer:0", "call"), ("reader", "file"), ("writer:0", "file"), ("reader", "cpart"), ("writer:0", "cerr"), ("reader", "cpanic"), ("typed:u8", "cpart")] {
+                for (kind, puller) in [("reader", "c1"), ("writer:0", "c1"), ("reader", "call"), ("writer:0", "call"), ("reader", "file"), ("writer:0", "file"), ("reader", "cpart"), ("writer:0", "cerr"), ("reader", "cpanic"), ("typed:u8", "cpart")] {
                     rot += 1;
                     let chunk = *r.pick(&[1usize, 3, 7, 64, 4096]);
                     let target = match rot % 3 { 0 => chunk * (1 + r.below(4) as usize), 1 => r.below(20) as usize, _ => r.below(5 * chunk as u64 + 3) as usize };
